@@ -26,12 +26,13 @@ def main():
     ap.add_argument("--tier", default="quick")
     ap.add_argument("--src", default=None)
     ap.add_argument("--keep", action="store_true")
+    ap.add_argument("--tag", default="")
     a = ap.parse_args()
     src = a.src or "/tmp/mut/%s/out" % a.pid
     diff = os.path.join(src, "m%s.diff" % a.k)
     demo = os.path.join(src, "m%s_demo.py" % a.k)
     meta = json.load(open(os.path.join(src, "m%s.json" % a.k))) if os.path.exists(os.path.join(src, "m%s.json" % a.k)) else {}
-    wt = "/tmp/evalwt_%s_%s" % (a.pid, a.k)
+    wt = "/tmp/evalwt_%s_%s%s" % (a.pid, a.tag, a.k)
     sh("git -C /repo worktree remove --force %s" % wt)
     rc, out = sh("git -C /repo worktree add -q %s HEAD" % wt)
     if rc:
@@ -71,7 +72,7 @@ def main():
             for l in lines[:6]:
                 print("   ", l[:260])
         if ok:
-            d = os.path.join(VERIF, "seeded", "%s-m%s" % (a.pid, a.k))
+            d = os.path.join(VERIF, "seeded", "%s-%sm%s" % (a.pid, a.tag, a.k))
             os.makedirs(d, exist_ok=True)
             shutil.copy(diff, os.path.join(d, "patch.diff"))
             shutil.copy(demo, os.path.join(d, "demo.py"))
